@@ -23,6 +23,7 @@ RULE = ("cases: a SessionManager with max_connections in {0,1,2,3,4,5,10} and a 
         "refused at the cap / by the can_accept gate), distinct by op text.")
 ASSUMPTIONS = [
     "the call-site disciplines (accept only while can_accept, check_limits before incr; untrack_all then decr on close; cluster_ip_at_limit before track_cluster_ip) are replicated by the driver from Server::{ready,create_sessions,shut_down_sessions_by_frontend_tokens}, ProxySession::close and Router::connect; that every exit path of a real session runs them is checked black-box (thorough tier), not proved",
+    "the accept queue, eviction and the zombie check (C16/QModel.v) are private to Server: their model is tied to the code by the translator (the statements it mirrors) and exercised by the black-box storms with / without evict_on_queue_full and the zombie-check configurations, not by an in-process correspondence; select_nth_unstable's choice among equally old entries is left open (the theorems do not depend on it)",
     "the nesting of the two private maps (cluster -> ip -> count, token -> cluster -> ips) is flattened in the model; their sizes are compared through the cfg(sozu_verif) footprint accessor",
 ]
 TRUSTED = ["poule::Pool hands out a buffer iff used < capacity (modelled, compared on every pool case)", "translator props/c16.py:translate compares the check_limits comparison, the at_capacity threshold 10 + 2*max and the decr re-enable expression with lib/src/server.rs"]
@@ -41,6 +42,18 @@ def translate():
         fails.append("server.rs: decr no longer re-enables can_accept at nb_connections < (max_connections*90/100).max(1) (model: resume_threshold)")
     if not re.search(r"\*count = count\.saturating_sub\(1\);\s*if \*count == 0 \{\s*inner\.remove\(\);", sv):
         fails.append("server.rs: untrack_all_cluster_ip no longer decrements saturating and reaps at zero")
+    # the statements C16/QModel.v mirrors (accept queue, eviction, zombie check are private to Server)
+    for pat, what in [
+        (r"self\.accept_queue\.push_back\(\(", "Server::accept no longer push_back()s the accepted socket"),
+        (r"while let Some\(\(sock, token, protocol, timestamp, _peer\)\) = self\.accept_queue\.pop_back\(\)", "create_sessions no longer pops the queue from the back"),
+        (r"if wait_time > self\.accept_queue_timeout \{\s*incr!\(names::accept_queue::TIMEOUT\);\s*continue;", "create_sessions no longer drops a connection that waited longer than accept_queue_timeout"),
+        (r"if !self\.evict_on_queue_full \{\s*break;", "create_sessions no longer stops at the cap when evict_on_queue_full is off"),
+        (r"let to_evict = \(self\.sessions\.borrow\(\)\.max_connections / 100\)\.max\(1\);", "create_sessions no longer evicts max(1, max_connections/100) sessions"),
+        (r"candidates\.select_nth_unstable_by_key\(pivot, \|&\(_, last_event\)\| last_event\);", "evict_least_active_sessions no longer selects by last_event"),
+        (r"\.filter\(\|\(_, c\)\| now - c\.borrow\(\)\.last_event\(\) > self\.zombie_check_interval\)", "zombie_check no longer reclaims the sessions idle for longer than the interval"),
+    ]:
+        if not re.search(pat, sv):
+            fails.append("server.rs: " + what + " (model: C16/QModel.v)")
     return fails
 
 
@@ -173,7 +186,9 @@ LEVEL_TEXT = ("Machine-checked proof (Coq 8.16) over an executable model of Sess
               "equals the number of live connections holding the slot in every reachable state (one slot per connection "
               "per cluster, empty maps at idle, no underflow), nb_connections never exceeds max_connections and equals the "
               "number of served connections, the per-IP gate never grants a slot at the limit, accepting resumes when the "
-              "load drops (any max_connections >= 1), pooled buffers in use equal the checkouts held within capacity and "
+              "load drops (any max_connections >= 1, any number of listeners), every accepted connection is queued, served or "
+              "dropped exactly once, eviction takes the least recently active sessions and releases exactly their resources, "
+              "the zombie check reclaims exactly the sessions idle beyond the interval, pooled buffers in use equal the checkouts held within capacity and "
               "maximum and a checkout is refused only when the pool is exhausted; tied to lib/src/server.rs on every run by a constant translator and a "
               "differential correspondence run of the real SessionManager against the extracted model with the property's "
               "own oracle; thorough tier adds a black-box worker run comparing gauges with the idle baseline.")
